@@ -28,6 +28,7 @@ package c13
 import (
 	"bytes"
 	"crypto/sha1"
+	"encoding/base32"
 	"encoding/hex"
 	"fmt"
 	"math/big"
@@ -1887,6 +1888,24 @@ type magnetCase struct {
 	wantAny bool     // a valid btih is present under the key "xt"
 }
 
+// nearHash: an encoding of a byte string that is not 20 bytes long, in the shapes hash.Parse looks at
+// (hex; base-32 with its padding, truncated to 32 characters, or without padding).
+func nearHash(rng *rand.Rand) string {
+	n := []int{0, 1, 10, 15, 16, 17, 18, 19, 21, 22, 24, 25, 32, 40}[rng.IntN(14)]
+	b := randBytes(rng, n)
+	switch rng.IntN(4) {
+	case 0:
+		return hex.EncodeToString(b)
+	case 1:
+		return base32.StdEncoding.EncodeToString(b) // padded: 16..19 bytes give exactly 32 characters
+	case 2:
+		return base32.StdEncoding.WithPadding(base32.NoPadding).EncodeToString(b)
+	default:
+		s := base32.StdEncoding.EncodeToString(append(b, make([]byte, 20)...))
+		return s[:32-rng.IntN(8)] + strings.Repeat("=", rng.IntN(8))
+	}
+}
+
 func genMagnet(rng *rand.Rand) magnetCase {
 	h := randBytes(rng, 20)
 	hexl := hex.EncodeToString(h)
@@ -1898,7 +1917,7 @@ func genMagnet(rng *rand.Rand) magnetCase {
 		mc.class = "bare-hash"
 		mc.wantAny = true
 		if rng.IntN(4) == 0 {
-			mc.s = vk.Pick(rng, []string{mc.s[:len(mc.s)-1], mc.s + "0", strings.ToLower(b32(h)), " " + mc.s, mc.s + "\n", ""})
+			mc.s = vk.Pick(rng, []string{mc.s[:len(mc.s)-1], mc.s + "0", strings.ToLower(b32(h)), " " + mc.s, mc.s + "\n", "", nearHash(rng), nearHash(rng), nearHash(rng)})
 			mc.class = "bare-near-hash"
 			mc.wantAny = false
 		}
@@ -1937,7 +1956,11 @@ func genMagnet(rng *rand.Rand) magnetCase {
 	for i := 0; i < nxt; i++ {
 		switch rng.IntN(8) {
 		case 0:
-			params = append(params, "xt="+enc("urn:btih:"+hexl[:rng.IntN(40)]))
+			if rng.IntN(2) == 0 {
+				params = append(params, "xt="+enc("urn:btih:"+nearHash(rng)))
+			} else {
+				params = append(params, "xt="+enc("urn:btih:"+hexl[:rng.IntN(40)]))
+			}
 		case 1:
 			params = append(params, "xt="+enc("urn:sha1:"+b32(h)))
 		default:
